@@ -21,7 +21,7 @@ Core == { O("Add", 0, 0, ""), O("Add", 4096, 0, ""), O("Add", 65535, 0, ""), O("
           O("RemoveRange", 0, 4096, ""), O("RemoveRange", 100, 4200, ""),
           \* half-open ranges at the universe edge: 65535 itself is never inside [a, 65535)
           O("RemoveRange", 0, 65535, ""), O("AddRange", 65000, 65535, ""),
-          O("Clear", 0, 0, ""), O("Clone", 0, 0, ""), O("Codec", 0, 0, ""),
+          O("Clear", 0, 0, ""), O("Clone", 0, 0, ""), O("Codec", 0, 0, ""), O("Optimize", 0, 0, ""),
           O("AddMany", 0, 0, "L1"),
           O("Or", 0, 0, "K3"), O("And", 0, 0, "K1"), O("Xor", 0, 0, "K2"), O("AndNot", 0, 0, "K4"),
           O("RAndNot", 0, 0, "K1") }
